@@ -61,11 +61,13 @@ Theorem C26_default_deletions_classified : forall fx e ty ec shards net,
 Proof. exact default_deletions_classified. Qed.
 
 (* Replicator: never more successes than asked for, only for nodes that were
-   sent the object and accepted it, never the local node, no node twice. *)
+   sent the object and accepted it ([RStored]: not a maintenance status, not any
+   other failure status, not a transport failure), never the local node, no node
+   twice. *)
 Theorem C26_replicator_bounded : forall e q nodes sends succ,
   handle_task e q nodes = (sends, succ) ->
   length succ <= q /\ incl succ sends /\ incl sends nodes
-  /\ (forall n, In n succ -> e_rep e n = true /\ n <> e_local e)
+  /\ (forall n, In n succ -> e_rep e n = RStored /\ n <> e_local e)
   /\ (NoDup nodes -> NoDup succ).
 Proof. exact handle_task_spec. Qed.
 
@@ -82,7 +84,7 @@ Proof. exact unrepaired_refuted. Qed.
 Definition ex_env : env :=
   mkEnv 9 true (fun n => Nat.eqb n 4)
         (fun n => match n with 1 => Has | 2 => NotFound | 5 => Has | _ => Err end)
-        (fun n => Nat.eqb n 2) true.
+        (fun n => match n with 2 => RStored | 3 => RMaint | 6 => RStatus | 7 => RNoConn | _ => RFail end) true.
 
 (* in the container: [1: has; 9 = local] REP 1 and [5: has; 2: not found; 9] REP 1 -> removed *)
 Example C26_example_drop :
@@ -121,6 +123,24 @@ Proof. split; reflexivity. Qed.
 Example C26_example_replicator :
   handle_task ex_env 1 [3; 2; 2] = ([3; 2], [2]).
 Proof. reflexivity. Qed.
+
+(* a node answering the replication request with the maintenance status (3), another
+   failure status (6), a transport failure (1) or unreachable (7) is not a holder: the
+   request goes on to the next candidate and only node 2 is reported *)
+Example C26_example_replicator_statuses :
+  handle_task ex_env 1 [3; 6; 7; 1; 2] = ([3; 6; 1; 2], [2])
+  /\ handle_task ex_env 1 [3; 6; 7; 1] = ([3; 6; 1], []).
+Proof. split; reflexivity. Qed.
+
+(* EC part 0 on [3; 9; 2]: node 3 does not have the part (HEAD answers not found)
+   and answers the replication request with the maintenance status -> the part is kept *)
+Definition ex_env_mm : env :=
+  mkEnv 9 true (fun _ => false) (fun _ => NotFound)
+        (fun n => match n with 3 => RMaint | _ => RFail end) true.
+Example C26_example_ec_maintenance_reply_kept :
+  let r := process_object true ex_env_mm Regular (Some (0, 0)) 1 (NetOk [[3; 9; 2]] [] [(2, 1)]) in
+  r_dels r = [] /\ r_sends r = [3] /\ r_succ r = [].
+Proof. repeat split; reflexivity. Qed.
 
 Print Assumptions C26_drop_safe.
 Print Assumptions C26_outside_drop_safe.
